@@ -464,12 +464,7 @@ func (w *walker) shape(v lua.LValue, old map[any]bool, depth int) string {
 			return "T"
 		}
 		parts := []string{}
-		n := 0
 		x.ForEach(func(k, val lua.LValue) {
-			n++
-			if n > 12 {
-				return
-			}
 			ks := k.Type().String()
 			if s, ok := k.(lua.LString); ok {
 				ks = string(s)
@@ -480,8 +475,8 @@ func (w *walker) shape(v lua.LValue, old map[any]bool, depth int) string {
 			parts = append(parts, ks+"="+w.shape(val, old, depth-1))
 		})
 		sort.Strings(parts)
-		if n > 12 {
-			parts = append(parts, "more")
+		if len(parts) > 12 {
+			parts = append(parts[:12], fmt.Sprintf("+%d", len(parts)-12))
 		}
 		mt := ""
 		if m, ok := x.Metatable.(*lua.LTable); ok {
